@@ -7,18 +7,30 @@ package wkbcommon
 
 // ---------------------------------------------------------------- assumed contracts on the standard library
 
+// byte-order spec functions: the value of 4 / 8 bytes starting at off
+//@ spec le32(b []byte, off int) int = int(b[off]) + 256*int(b[off+1]) + 65536*int(b[off+2]) + 16777216*int(b[off+3])
+//@ spec be32(b []byte, off int) int = int(b[off+3]) + 256*int(b[off+2]) + 65536*int(b[off+1]) + 16777216*int(b[off])
+//@ spec le64(b []byte, off int) int = le32(b, off) + 4294967296*le32(b, off+4)
+//@ spec be64(b []byte, off int) int = be32(b, off+4) + 4294967296*be32(b, off)
+//@ spec u32(order byteOrder, b []byte, off int) int = ite(order == littleEndian, le32(b, off), be32(b, off))
+//@ spec u64(order byteOrder, b []byte, off int) int = ite(order == littleEndian, le64(b, off), be64(b, off))
+
 //@ extern encoding/binary.(littleEndian).Uint32(o, b)
 //@   pure
 //@   requires len(b) >= 4
+//@   ensures int(result) == le32(b, 0)
 //@ extern encoding/binary.(bigEndian).Uint32(o, b)
 //@   pure
 //@   requires len(b) >= 4
+//@   ensures int(result) == be32(b, 0)
 //@ extern encoding/binary.(littleEndian).Uint64(o, b)
 //@   pure
 //@   requires len(b) >= 8
+//@   ensures result == le64(b, 0)
 //@ extern encoding/binary.(bigEndian).Uint64(o, b)
 //@   pure
 //@   requires len(b) >= 8
+//@   ensures result == be64(b, 0)
 
 //@ extern io.ReadFull(r, buf) (n, err)
 //@   requires r != nil
@@ -41,6 +53,7 @@ package wkbcommon
 //@ func unmarshalUint32(order, buf)
 //@   pure
 //@   requires len(buf) >= 4
+//@   ensures order == littleEndian || order == bigEndian ==> int(result) == u32(order, buf, 0)
 
 //@ func readUint32(r, order, buf)
 //@   requires r != nil && len(buf) == 4
@@ -99,10 +112,17 @@ package wkbcommon
 // ---- one-shot byte decoders: how much of the input a successful decode accounts for
 // (this is what keeps the `data = data[...:]` advances of the callers in range)
 
+// C01: a decoded point sequence is exactly the count word followed by 16 bytes per point, read in
+// the stated byte order, every bit pattern included (floats are their bit patterns here)
 //@ func unmarshalPoints(order, data) (result, err)
+//@   floats bits
 //@   modifies nothing
-//@   loop 1: invariant fresh(result) && result != nil
-//@   loop 2: invariant fresh(result) && result != nil
+//@   ensures err == nil && (order == littleEndian || order == bigEndian) ==> len(result) == u32(order, data, 0)
+//@   ensures err == nil && (order == littleEndian || order == bigEndian) ==> (forall k :: 0 <= k && k < len(result) ==> bits(result[k][0]) == u64(order, data, 4 + 16*k) && bits(result[k][1]) == u64(order, data, 12 + 16*k))
+//@   loop 1: invariant fresh(result) && result != nil && 0 <= i && len(result) == i && len(data) + 4 == old(len(data)) && data.ref == old(data.ref) && data.off == old(data.off) + 4
+//@   loop 1: invariant forall k :: 0 <= k && k < i ==> bits(result[k][0]) == le64(old(data), 4 + 16*k) && bits(result[k][1]) == le64(old(data), 12 + 16*k)
+//@   loop 2: invariant fresh(result) && result != nil && 0 <= i && len(result) == i && len(data) + 4 == old(len(data)) && data.ref == old(data.ref) && data.off == old(data.off) + 4
+//@   loop 2: invariant forall k :: 0 <= k && k < i ==> bits(result[k][0]) == be64(old(data), 4 + 16*k) && bits(result[k][1]) == be64(old(data), 12 + 16*k)
 //@   ensures err == nil ==> len(data) >= 4 + 16*len(result)
 //@   opt alloc=MaxPointsAlloc
 
@@ -169,3 +189,40 @@ package wkbcommon
 // bytes of geometry, or headers aliasing one huge array; listed as an assumption)
 //@ func GeomLength(geom, ewkb)
 //@   ovf assume
+
+// ---------------------------------------------------------------- C01: encoder side, point payloads
+// binary.ByteOrder is an open interface; for the two standard orders PutUint64 writes exactly the
+// bytes that Uint64 reads back (assumed contract on the standard library).
+//@ extern encoding/binary.(ByteOrder).PutUint64(o, b, v)
+//@   requires len(b) >= 8
+//@   modifies b[0:8]
+//@   ensures o == binary.LittleEndian ==> le64(b, 0) == v
+//@   ensures o == binary.BigEndian ==> be64(b, 0) == v
+//@ extern encoding/binary.(ByteOrder).PutUint32(o, b, v)
+//@   requires len(b) >= 4
+//@   modifies b[0:4]
+//@   ensures o == binary.LittleEndian ==> le32(b, 0) == int(v)
+//@   ensures o == binary.BigEndian ==> be32(b, 0) == int(v)
+
+// every 16-byte chunk handed to the writer holds the two coordinate bit patterns of the current
+// point in the encoder's byte order — exactly the bytes unmarshalPoints / readPoint map back to the
+// same bit patterns (lemma point_payload_roundtrip)
+//@ func (*Encoder).writeLineString(e, ls, srid)
+//@   floats bits
+//@   requires e.w != nil && e.order != nil && len(e.buf) == 16
+//@   callpre Write: rangeindex >= 0 ==> len(e.buf) == 16 && (e.order == binary.LittleEndian ==> le64(e.buf, 0) == bits(p[0]) && le64(e.buf, 8) == bits(p[1])) && (e.order == binary.BigEndian ==> be64(e.buf, 0) == bits(p[0]) && be64(e.buf, 8) == bits(p[1]))
+//@   loop 1: invariant -1 <= rangeindex && rangeindex < len(ls) && e.w != nil && e.order != nil && len(e.buf) == 16 && e.w == old(e.w) && e.order == old(e.order)
+
+//@ lemma point_payload_roundtrip: forall b []byte, off int, x int, y int :: le64(b, off) == x && le64(b, off + 8) == y ==> u64(littleEndian, b, off) == x && u64(littleEndian, b, off + 8) == y
+
+//@ func unmarshalPoint(order, buf) (p, err)
+//@   floats bits
+//@   pure
+//@   ensures err == nil ==> len(buf) >= 16
+//@   ensures err == nil && (order == littleEndian || order == bigEndian) ==> bits(p[0]) == u64(order, buf, 0) && bits(p[1]) == u64(order, buf, 8)
+//@   ensures err != nil ==> len(buf) < 16
+
+//@ func (*Encoder).writePoint(e, p, srid)
+//@   floats bits
+//@   requires e.w != nil && e.order != nil && len(e.buf) == 16
+//@   callpre Write: len(e.buf) == 16
